@@ -45,7 +45,7 @@ type JwsSpec struct {
 	Alg      string // protected alg ("" = natural algorithm of the signing key)
 	SignAlg  string // algorithm used to compute the signature ("" = Alg; "-" = empty signature)
 	Kid      string // loc | otherprov | garbage | ownerloc | noprefix
-	Nonce    string // fresh | reused | foreign | empty | absent | otherprov
+	Nonce    string // fresh | reused | foreign | empty | absent | otherprov | near-pad | near-pad2 | near-case | near-trunc | near-space | near-lead (a live nonce respelled)
 	URL      string // same | other | absent | nonstring | case-id | case-path | case-scheme | case-host (request URL with the letter case of that part flipped)
 	Unprot   string // "" | kid | alg | nonce | extra | jwk
 	NSigs    int
